@@ -980,5 +980,6 @@ func init() {
 
 			return runWorldW(rc, "C13", "M1")
 		}},
+		Scenario{Name: "W-large-batch", World: "W", Weight: 1, Run: runLargeBatch},
 	)
 }
